@@ -604,6 +604,14 @@ func watchdog() {
 		if tick%2 == 0 {
 			runtime.ReadMemStats(&ms)
 			if ms.HeapAlloc > heapLimit && curCase.Load() == w {
+				// HeapAlloc counts garbage not yet collected. On an oversubscribed machine the collector can be
+				// starved for seconds while the case (or a group of concurrent cases) allocates, so judge what
+				// is LIVE after a forced collection: a runaway allocation retains its memory, garbage does not
+				// (a loop that only churns garbage is caught by the CPU limit instead).
+				runtime.GC()
+				runtime.ReadMemStats(&ms)
+			}
+			if ms.HeapAlloc > heapLimit && curCase.Load() == w {
 				RecordFailure(w.test, w.c, fmt.Errorf("watchdog: heap grew to %d MiB while deciding this case (runaway allocation)", ms.HeapAlloc>>20))
 				os.Exit(1)
 			}
